@@ -267,7 +267,7 @@ Proof.
 Qed.
 
 Theorem drop_blocks_refines (t : tb) (ck : option ckey) (rowf : list A -> list A) : wf_tb t ->
-  t <> [] -> (match ck with Some k => walk_dom k = true | None => True end) ->
+  t <> [] -> (match ck with Some k => walk_dom k (Z.of_nat (length (flatten t))) = true | None => True end) ->
   res_map flatten (M_drop_blocks t ck rowf) =
   res_map (map (fun c => (fst c, rowf (snd c)))) (S_drop_columns (flatten t) ck).
 Proof.
@@ -282,31 +282,7 @@ Proof.
       rewrite (S_drop_at_ext _ ps ps') by (intros i; symmetry; apply Hsame).
       unfold S_drop_at. rewrite (upd_flatten_split (fun m x => if m then [] else [x]) t ps'). reflexivity.
     + (* the key is invalid on this axis: both sides raise *)
-      unfold block_slices_asc, ncols, tb_index. rewrite index_from_length.
-      set (n := Z.of_nat (length (flatten t))) in *.
-      destruct k as [|i|s|l|m]; cbn in Ek; try discriminate.
-      * cbn [asc_key]. unfold key_to_block_slices, tb_index. rewrite index_from_length. fold n. cbn [key_positions].
-        destruct (norm_index i n); [discriminate|]. injection Ek as <-. reflexivity.
-      * cbn [asc_key]. unfold key_to_block_slices, tb_index. rewrite index_from_length. fold n. cbn [key_positions].
-        destruct (positions s n) as [qs|] eqn:Eq; [discriminate|]. injection Ek as <-.
-        assert (E0 : s_step s = Some 0).
-        { unfold positions, slice_indices in Eq. destruct (s_step s) as [st|]; cbn in Eq.
-          - destruct (st =? 0) eqn:Ez; [f_equal; lia|discriminate].
-          - discriminate. }
-        cbn in Hdom. rewrite E0 in Hdom. discriminate.
-      * cbn [asc_key]. unfold key_to_block_slices, tb_index. rewrite index_from_length. fold n. cbn [key_positions].
-        destruct (opt_all (map (fun i => norm_index i n) l)) as [qs|] eqn:Eq; [discriminate|]. injection Ek as <-.
-        destruct (opt_all (map (fun i => norm_index i n) (sort_z l))) as [qs|] eqn:Eq2; [|reflexivity].
-        exfalso. apply opt_all_Some in Eq2.
-        assert (Hall : forall x, In x l -> exists y, norm_index x n = Some y).
-        { intros x Hx. apply sort_z_In in Hx. apply (in_map (fun i => norm_index i n)) in Hx.
-          rewrite Eq2 in Hx. apply in_map_iff in Hx as (y & Hy & _). exists y. congruence. }
-        clear - Eq Hall. revert Eq. induction l as [|x l IHl]; cbn; [discriminate|].
-        destruct (Hall x (or_introl eq_refl)) as [y ->].
-        destruct (opt_all (map (fun i => norm_index i n) l)) eqn:E; [discriminate|].
-        intros _. apply IHl; [intros z Hz; apply Hall; right; assumption|reflexivity].
-      * cbn [asc_key]. unfold key_to_block_slices, tb_index. rewrite index_from_length. fold n. cbn [key_positions].
-        destruct (_ =? n); [discriminate|]. injection Ek as <-. reflexivity.
+      rewrite (block_slices_asc_err t k e Hdom Ek). reflexivity.
   - (* no column key: every block is yielded *)
     destruct (drop_walk_correct t Hwf 0 (map (fun _ => []) t)) as (bs & Ebs & Efl).
     { clear. induction t; constructor; [exact I|assumption]. }
